@@ -361,6 +361,10 @@ func defGenericMethod(s *slip.Scope, fname slip.Symbol, args slip.List, aux *Aux
 		Forms: args,
 	}
 	lam.Compile(s)
+	if len(ll) < aux.reqCnt {
+		slip.ErrorPanic(s, depth, "method %s has %d parameters, the generic function requires %d.",
+			fname, len(ll), aux.reqCnt)
+	}
 	key := formMethKey(ll[:aux.reqCnt])
 
 	return addMethodCaller(aux, string(fname), qual, key, lam, &fd)
